@@ -37,6 +37,7 @@ type c07Case struct {
 	WriteFail []int  `json:"write_failure_at"`
 	Delay     int    `json:"writer_delay_mode"` // 0 none, 1 Gosched, 2 sleep 20us every 16th, 3 sleep 1ms every 256th
 	GenBuf    int    `json:"request_channel_buffer"`
+	WriteErr  string `json:"write_failure_kind"` // "" plain error values | enobufs | eagain | eintr (bare errno values, as the kernel returns them)
 	ErrLagMs  int    `json:"error_reader_starts_after_ms"` // a consumer of the error stream that lags behind (errors queue up in the 100-slot buffers)
 }
 
@@ -183,6 +184,13 @@ func c07Check(c c07Case) *kit.Verdict {
 		return m
 	}
 	reqErr, buildFail, writeFail := mk(c.ReqErr, "request error"), mk(c.BuildFail, "build failure"), mk(c.WriteFail, "write failure")
+	if errno, ok := map[string]syscall.Errno{"enobufs": syscall.ENOBUFS, "eagain": syscall.EAGAIN, "eintr": syscall.EINTR}[c.WriteErr]; ok {
+		// a failed write is a failed write whatever the errno: exactly one error, the frame is not written again
+		for p := range writeFail {
+			writeFail[p] = errno
+		}
+		v.Label("write-errno=%s", c.WriteErr)
+	}
 	want := map[string]int{}
 	for _, m := range []map[int]error{reqErr, buildFail, writeFail} {
 		for _, e := range m {
@@ -378,7 +386,7 @@ func TestC07Pipeline(t *testing.T) {
 	maxN := kit.EnvInt("C07_MAXN", 3000)
 	kit.Run(t, kit.Spec[c07Case]{
 		Prop: "C07",
-		Rule: "request stream of length 0..3000 (> every 100-slot buffer) with generator errors, build failures and write failures at drawn positions (first, last, anywhere; 0..400 each, i.e. more than the two 100-slot error buffers) x an error consumer that starts at once or lags 20/120 ms x real filler (tcp/udp/icmp/arp, both link modes) x 1..64 packet-building workers x writer delay mode x request channel buffering, assembled with scan.NewPacketSource/NewPacketMultiGenerator/SetupPacketEngine exactly as the commands do; run under the race detector with GOMAXPROCS varied per shard. Oracle: multiset(frames handed to the wire) = multiset(frames built), entry snapshot = exit snapshot of every write, each request built once, multiset(errors) = injected failures (unique values), completion only after the last write. non-trivial: >100 requests, >=2 workers, >=1 injected error; distinct by case",
+		Rule: "request stream of length 0..3000 (> every 100-slot buffer) with generator errors, build failures and write failures (plain errors or bare ENOBUFS / EAGAIN / EINTR) at drawn positions (first, last, anywhere; 0..400 each, i.e. more than the two 100-slot error buffers) x an error consumer that starts at once or lags 20/120 ms x real filler (tcp/udp/icmp/arp, both link modes) x 1..64 packet-building workers x writer delay mode x request channel buffering, assembled with scan.NewPacketSource/NewPacketMultiGenerator/SetupPacketEngine exactly as the commands do; run under the race detector with GOMAXPROCS varied per shard. Oracle: multiset(frames handed to the wire) = multiset(frames built), entry snapshot = exit snapshot of every write, each request built once, multiset(errors) = injected failures (unique values), completion only after the last write. non-trivial: >100 requests, >=2 workers, >=1 injected error; distinct by case",
 		Gen: func(t *rapid.T) c07Case {
 			c := c07Case{Filler: rapid.SampledFrom([]string{"tcp", "udp", "icmp", "arp"}).Draw(t, "filler"), VPN: rapid.Bool().Draw(t, "vpn")}
 			c.Workers = rapid.SampledFrom([]int{1, 2, 3, 4, 8, 16, 33, 64}).Draw(t, "workers")
@@ -392,6 +400,7 @@ func TestC07Pipeline(t *testing.T) {
 			c.Delay = rapid.IntRange(0, 3).Draw(t, "delay")
 			c.GenBuf = rapid.SampledFrom([]int{0, 1, 100}).Draw(t, "genbuf")
 			c.ErrLagMs = rapid.SampledFrom([]int{0, 0, 0, 20, 120}).Draw(t, "errlag")
+			c.WriteErr = rapid.SampledFrom([]string{"", "", "enobufs", "eagain", "eintr"}).Draw(t, "writeerr")
 			return c
 		},
 		Check: c07Check,
